@@ -173,3 +173,9 @@ Theorem C10_code_GrayCode_decode : forall (w n : nat) m, m <> [] -> Forall (fun 
   py_GrayCode_decode (pow2s (arange (Z.of_nat n))) m = map (fun r => decode Gray (bz r)) m.
 Proof. exact code_GrayCode_decode. Qed.
 Print Assumptions C10_code_GrayCode_decode.
+
+(* the Gray round trip about the source's own two functions: encoding then decoding a batch of 0/1 rows gives the rows back *)
+Theorem C10_src_gray_roundtrip : forall m, Forall (fun r => r <> []) m ->
+  map bz (py_gray_to_bit (py_bit_to_gray m)) = map bz m.
+Proof. exact src_gray_roundtrip. Qed.
+Print Assumptions C10_src_gray_roundtrip.
